@@ -81,9 +81,24 @@ def resChar : Res → Char
   | .fault _ => 'F'
   | .ub _ => 'U'
 
+/-- outcome character; a check on a pointer that is not representable (address ≥ 2^63) or with a size
+    of 2^63 or more (both only arise from 64-bit header values; the C++ forms them by pointer arithmetic
+    that overflows) before the run ends is reported as undefined (`U`) -/
+def runChar (c : Ctx) (evs : List Ev) : Char :=
+  let r := run c.n evs 0
+  let upto := match r with
+    | .ok => evs.length
+    | .assertFailed i => i
+    | .fault i => i
+    | .ub i => i
+  if (evs.take (upto + 1)).any (fun e => match e with
+      | .check b off size _ => decide (c.base + b ≥ 2 ^ 63) || decide (off + size ≥ 2 ^ 63)
+      | _ => false) then 'U'
+  else resChar r
+
 def block (c : Ctx) (m : MsgL) (paths : List (Nat × List Op)) : String :=
   let evs := paths.map (fun p => (p.1, walk c (.msg m) p.2))
-  let runS := String.ofList (evs.map (fun (_, e) => match e with | none => '?' | some e => resChar (run c.n e 0)))
+  let runS := String.ofList (evs.map (fun (_, e) => match e with | none => '?' | some e => runChar c e))
   let guardS := String.ofList (evs.map (fun (_, e) => match e with | none => '?' | some e => if guard e then 'g' else '-'))
   let specS := String.ofList (evs.map (fun (ne, _) => if ne ≤ c.n then 'i' else 'o'))
   runS ++ "/" ++ guardS ++ "/" ++ specS
@@ -159,7 +174,7 @@ def cvars : List CVar := [.plain, .init, .dontMove, .initDontMove, .skip]
 
 def cblock (c : Ctx) (m : CMsg) (needs : List Nat) : String :=
   let runs := (List.range (needs.length / 5)).flatMap (fun k => cvars.map (fun v => (travMsg c m { k := k, var := v }).evs))
-  let runS := String.ofList (runs.map (fun e => resChar (run c.n e 0)))
+  let runS := String.ofList (runs.map (fun e => runChar c e))
   let guardS := String.ofList (runs.map (fun e => if guard e then 'g' else '-'))
   let specS := String.ofList (needs.map (fun ne => if ne ≤ c.n then 'i' else 'o'))
   runS ++ "/" ++ guardS ++ "/" ++ specS
